@@ -59,6 +59,12 @@ def make_cases(tier, rng):
         for _ in range(1 if tier == "quick" else 3):
             add("inproc", [g.est(rng, d, "dial_first", gap=5500), g.est(rng, d, rng.choice(["accept_first", "dial_first"]), gap=0),
                            g.est(rng, d, "accept_first", gap=100)], "late-accept:" + d)
+    # the gRPC half of C09's last clause: closing the client ends the brokers' goroutines (a few in-process cases, it takes seconds)
+    n = 0
+    for c in cases:
+        if c["pair"] == "inproc" and c["fam"] in ("unmatched", "sequence", "extreme-ids") and not c.get("hold") and n < (3 if tier == "quick" else 12):
+            c["leak_check"] = True
+            n += 1
     return cases
 
 
